@@ -1,0 +1,18 @@
+//go:build verif
+
+package klog
+
+import "github.com/jotaen/klog/klog/app"
+
+// ContextWrapper, if set, is applied to the application context right after
+// it has been constructed in Run. It exists only in builds with the `verif`
+// tag, and allows a verification harness to own the clock, stdout and stdin
+// while everything else is handled by the real context.
+var ContextWrapper func(app.Context) app.Context
+
+func wrapContext(ctx app.Context) app.Context {
+	if ContextWrapper != nil {
+		return ContextWrapper(ctx)
+	}
+	return ctx
+}
